@@ -1149,6 +1149,52 @@ def corpus_refused_handle(R, r):
                     R.fail("C10:fitting-assignment-refused", f"{A.__name__}: after a refused update, x[{idx}] = {small!r}: {type(ex).__name__}: {str(ex)[:100]}", ctx)
 
 
+def corpus_unionref_instances(R, r):
+    """C08, oracle only (O-43): a union reference given ANOTHER union-reference object as its value (`H(u=U(a))`, `h.u = other_u`,
+    items of `U[2]`) refers to what that one refers to - the same object when it lives in the holder's buffer, an independent copy in
+    the holder's buffer otherwise, null for a null - wherever the two slots are"""
+    xo = common.import_xobjects()
+    uid = next(_rd_uid)
+    ctx = {"component": "heap", "corpus": "unionref-instances"}
+    A = type(xo.Struct)(f"UA{uid}", (xo.Struct,), {"x": xo.Float64})
+    B = type(xo.Struct)(f"UB{uid}", (xo.Struct,), {"y": xo.Int64, "z": xo.Int64[:]})
+    U = type(xo.UnionRef)(f"UU{uid}", (xo.UnionRef,), {"_reftypes": [A, B]})
+    H = type(xo.Struct)(f"UH{uid}", (xo.Struct,), {"k": xo.Int64, "u": U, "us": U[2]})
+    for kind in ("numpy", "bytearray"):
+        try:
+            buf, other = alloc_buffer(xo, kind), alloc_buffer(xo, kind)
+            a = A(x=1.5, _buffer=buf)
+            buf.allocate(r.choice([8, 24, 40]))                      # the two slots are at different distances from the referent
+            uu, un = U(a, _buffer=buf), U(_buffer=buf)
+            uo = U(B(y=7, z=[1, 2], _buffer=other), _buffer=other)
+            h = H(k=1, u=uu, us=[un, uo], _buffer=buf)
+            t = h.u
+            if t is None or t._buffer is not buf or int(t._offset) != int(a._offset) or float(t.x) != 1.5:
+                R.fail("C08:unionref-instance-not-aliased", f"H(u=U(a)): the field denotes {type(t).__name__} at {getattr(t, '_offset', None)}, a is at {int(a._offset)}", ctx)
+            a.x = 2.5
+            if h.u is None or float(h.u.x) != 2.5:
+                R.fail("C08:unionref-instance-not-aliased", "H(u=U(a)): a write to a is not seen through the field", ctx)
+            if h.us[0] is not None:
+                R.fail("C08:null-not-none", f"item given a NULL union reference reads {h.us[0]!r}", ctx)
+            c = h.us[1]
+            if c is None or c._buffer is not buf or int(c.y) != 7 or [int(q) for q in c.z.to_nparray()] != [1, 2]:
+                R.fail("C08:unionref-instance-foreign-not-copied", f"item given a union reference of another buffer reads {c!r}", ctx)
+            h.u = uo
+            c2 = h.u
+            if c2 is None or c2._buffer is not buf or int(c2.y) != 7:
+                R.fail("C08:unionref-instance-foreign-not-copied", "h.u = (union reference of another buffer): not an object of the holder's buffer with that value", ctx)
+            h.u = un
+            if h.u is not None:
+                R.fail("C08:null-not-none", "h.u = (null union reference) does not read None", ctx)
+            h.us[0] = uu
+            t = h.us[0]
+            if t is None or int(t._offset) != int(a._offset) or t._buffer is not buf:
+                R.fail("C08:unionref-instance-not-aliased", "h.us[0] = U(a): the item does not denote a", ctx)
+            R.tags["corpus.unionref-instances"] += 1
+        except Exception as ex:
+            R.fail("C08:corpus-raises", f"union references as values: {type(ex).__name__}: {str(ex)[:160]}", ctx)
+
+
 def corpus_array_values(R, r):
     """existing ARRAYS as values (oracle only): (a) a source with spare room between its items (an item rewritten by a shorter text)
     is copied item-wise into the room planned for it - nothing outside the reserved extents changes, the size reported is the extent;
@@ -1260,6 +1306,7 @@ def run_all(tier, seed, n=None):
     corpus_string_instances(R, r)
     corpus_refusals(R, r)
     corpus_refused_handle(R, r)
+    corpus_unionref_instances(R, r)
     corpus_array_values(R, r)
     corpus_two_accessors(R, r)
     for _ in range(n):
